@@ -1614,6 +1614,8 @@ class Interp:
         s0, itv = vals[0]
         if itv.kind == "tuple" and 0 < len(itv.val) <= 6 and all(x.kind == "const" for x in itv.val):
             elems = list(itv.val)
+        elif itv.kind == "tuple" and 0 < len(itv.val) <= 6 and all(x.kind in ("const", "tuple") for x in itv.val) and any(x.kind == "tuple" for x in itv.val):
+            elems = list(itv.val)  # a literal display of pairs written in the loop header: ((k1, v1), (k2, v2), ...)
         elif itv.kind == "const" and isinstance(itv.val, tuple) and 0 < len(itv.val) <= 6 and all(isinstance(x, (str, int, bytes)) for x in itv.val) and itv.sym is None:
             elems = [const(x) for x in itv.val]
         else:
